@@ -31,10 +31,13 @@ def in_carrier(e):
     return ic(e["lhs"], e.get("rhs"))
 
 
-def judge_events(out, events, prop, sig_of):
+def judge_events(out, events, prop, sig_of, timeout=300):
+    """A judge that does not finish within `timeout` (an edit of /repo can make the emitted
+    terms arbitrarily expensive to evaluate) is a machinery error for the unjudged events;
+    verdicts already printed are kept, so violations found so far are still reported."""
     for i, e in enumerate(events):
         e["id"] = i + 1
-    jr = judge.judge_parallel(events, procs=16, chunk=max(25, len(events) // 16 + 1))
+    jr = judge.judge_parallel(events, procs=16, chunk=max(25, len(events) // 16 + 1), timeout=timeout)
     if jr.error:
         out.machinery.append({"clause": "judge", "detail": jr.error})
     n_ok = n_bad = n_undef = 0
